@@ -89,7 +89,7 @@ def find_passes(F, fn, pr):
         # state variable: Option<Rank> local with a def Some(x) in the loop
         S = None
         for l, ds in pr.defs.items():
-            if fn.local_ty(l) != OPT_RANK or len(ds) < 2:
+            if fn.local_ty(l) != OPT_RANK or len(ds) < 2 or fn.local_name(l) is None:
                 continue
             for (db, si, k, payload) in ds:
                 if k == "rv" and db in lp.body:
@@ -102,7 +102,7 @@ def find_passes(F, fn, pr):
             # `S = move tmp` where tmp = Some(x)
         if S is None:
             for l, ds in pr.defs.items():
-                if fn.local_ty(l) == OPT_RANK and len(ds) >= 2:
+                if fn.local_ty(l) == OPT_RANK and len(ds) >= 2 and fn.local_name(l) is not None:
                     for a in P.alts(pr.local(l)):
                         if a[0] == "agg" and a[1].endswith("Option::Some") and P.strip(a[2][0]) == x:
                             S = l
@@ -229,12 +229,26 @@ def check_pass(ctx, F, fn, pr, ps, rule, tokens_local_pred):
     for bi, t in fn.calls():
         if bi in inner_blocks and bi in cfg.reachable and t["callee"].get("name") == "push" and tokens_local_pred(fn, t):
             pushes.append(bi)
-    for (db, si, k, payload) in pr.defs.get(ps.S, []):
-        if db not in inner_blocks:
-            continue
+    def leaf_defs(l, depth=0):
+        """definitions of local l inside the loop, looking through temporaries that are only moved into it"""
+        out = []
+        for (db, si, k, payload) in pr.defs.get(l, []):
+            if db not in inner_blocks:
+                continue
+            if k == "rv" and "use" in payload and depth < 3:
+                p2 = payload["use"].get("move") or payload["use"].get("copy")
+                if p2 is not None and not p2["proj"] and fn.local_name(p2["l"]) is None and \
+                        all(d_[0] in inner_blocks for d_ in pr.defs.get(p2["l"], [])) and len(pr.defs.get(p2["l"], [])) >= 2:
+                    out.extend(leaf_defs(p2["l"], depth + 1))
+                    continue
+            out.append((db, k, payload))
+        return out
+    for (db, k, payload) in leaf_defs(ps.S):
         tt = pr.rvalue(payload) if k == "rv" else None
         alts = P.alts(tt) if tt else []
         if tt and tt[0] == "agg" and tt[1].endswith("Option::None"):
+            if S_none and I.guarded_by(fn, db, S_none, start=header):
+                continue        # `start = None` while no run is open: a no-op (the None arm of `cur.map(..)`)
             resets.append(db)
         elif tt and tt[0] == "agg" and tt[1].endswith("Option::Some") and P.strip(tt[2][0]) == ps.x:
             opens.append(db)
